@@ -31,18 +31,86 @@ def gen_atom(rng, PR, force=None):
     if force.get("version", rng.random() < 0.5):
         d["version"] = (rng.choice(OPS), rng.choice(VERS))
     if force.get("arch", rng.random() < 0.4):
-        neg = rng.random() < 0.5
-        d["arch"] = [PR.ArchRestriction(not neg, a) for a in rng.sample(ARCHS, rng.randint(1, 3))]
+        mode = rng.choice(["plain", "negated", "mixed"])
+        d["arch"] = [PR.ArchRestriction({"plain": True, "negated": False}.get(mode, rng.random() < 0.5), a)
+                     for a in rng.sample(ARCHS, rng.randint(1, 3))]
     if force.get("restrictions", rng.random() < 0.4):
         d["restrictions"] = [[PR.BuildRestriction(rng.random() < 0.5, p) for p in rng.sample(PROFILES, rng.randint(1, 3))]
                              for _ in range(rng.randint(1, 4))]
     return d
 
 
+# ------------------------------------------------------------------------------------------------
+# R-13: match and capture lemmas on the real __dep_RE for ALL formatted atoms (SMT via rx, marked translation)
+import z3
+from vf import rx
+from vf.runner import Unsupported
+
+RX = dict(name=r"[a-zA-Z0-9][a-zA-Z0-9.+\-]*", aq=r"[a-zA-Z0-9][a-zA-Z0-9\-]*", op=r"(<<|<=|=|>=|>>)", ver=r"[0-9a-zA-Z:\-+~.]+",
+          colon=":", sp_lp=r" \(", sp=" ", rp=r"\)", sp_lb=r" \[", rb=r"\]")
+_ARCH = r"!?[a-z0-9_\-]+"
+RX["archs"] = _ARCH + "( " + _ARCH + ")*"
+_TERM = r"!?[a-z0-9_.\-]+"
+_GRP = "<" + _TERM + "( " + _TERM + ")*>"
+RX["restr"] = _GRP + "( " + _GRP + ")*"
+RX["atom"] = (RX["name"] + "(:" + RX["aq"] + ")?( \\(" + RX["op"] + " " + RX["ver"] + "\\))?( \\[" + RX["archs"] + "\\])?( "
+              + RX["restr"] + ")?")
+GROUPS = (("name", "name"), ("archqual", "aq"), ("relop", "op"), ("version", "ver"), ("archs", "archs"), ("restrictions", "restr"))
+
+
+def regex_lemmas(ctx, PR):
+    fq = MOD + ":PkgRelation.__dep_RE"
+    dep = PR._PkgRelation__dep_RE
+    ctx.function_under_contract(fq, repr(dep.pattern))
+    try:
+        def build(marked):
+            env = rx.Env()
+            P = env.add(dep, name="__dep_RE")
+            S = {n: env.add(t, 0, n) for n, t in RX.items()}
+            env.finalize()
+            W = lambda k: env.lang(S[k], "fullmatch")
+            g = lambda n, k: z3.Concat(env.marker("<" + n), W(k), env.marker(n + ">")) if n == marked else W(k)
+            return env, P, S, W, g
+        env, P, S, W, g = build(None)
+        n = rx.crosscheck(env, [P], "match", {"__dep_RE": [a for a, _ in GROUPS]})
+        ctx.notes.append("rx translation of __dep_RE cross-checked against re on %d subjects" % n)
+
+        def rep_match(m, env=env):
+            s = env.realize(m.get("w", ""))
+            return {"string": s, "confirmed": dep.match(s) is None}
+        smt, var = env.claim_subset(W("atom"), env.lang(P, "match"))
+        ctx.vc("R-13a every formatted atom matches __dep_RE (no 'cannot parse' fallback)", fq, smt, theory="str", model_vars=[var],
+               kind="rx", replay=rep_match)
+        smt, var = env.smt_empty(W("atom"))
+        ctx.vc("probe: no formatted atom exists (must NOT be discharged)", fq, smt, theory="str", probe=True, kind="probe")
+        for gname, key in GROUPS:
+            env, P, S, W, g = build(gname)
+            M = env.marked_lang(P, [gname])
+            H = env.erased_inverse(S["atom"])
+            E = z3.Concat(g("name", "name"), z3.Option(z3.Concat(W("colon"), g("archqual", "aq"))),
+                          z3.Option(z3.Concat(W("sp_lp"), g("relop", "op"), W("sp"), g("version", "ver"), W("rp"))),
+                          z3.Option(z3.Concat(W("sp_lb"), g("archs", "archs"), W("rb"))),
+                          z3.Option(z3.Concat(W("sp"), g("restrictions", "restr"))))
+            smt, var = env.claim_subset(z3.Intersect(M, H), E)
+
+            def rep(m, env=env, gname=gname):
+                w = m.get("w", "")
+                s = env.realize(env.erase(w))
+                got = dep.match(s)
+                return {"string": s, "group": gname, "real_groups": got.groupdict() if got else None,
+                        "marked_witness": env.realize(w), "confirmed": False}
+            ctx.vc("R-13b on a formatted atom, group '%s' of __dep_RE is exactly the %s part that was written (absent when not written)"
+                   % (gname, gname), fq, smt, theory="str", model_vars=[var], kind="rx", replay=rep)
+    except Unsupported as e:
+        ctx.mark_unproved(fq, "unsupported: %s" % e)
+    ctx.solve()
+
+
 def run(ctx):
     mod = extract.load(MOD)
     real = mod.real()
     PR = real.PkgRelation
+    regex_lemmas(ctx, PR)
     for q in ("PkgRelation.parse_relations", "PkgRelation.str"):
         node, _ = mod.lookup(q)
         if node is not None:
@@ -79,6 +147,21 @@ def run(ctx):
         if s2 != s:
             t.failed("formatting the parsed structure gives a different string", string=s, second=s2)
             break
+        # the result of one parse belongs to the caller: editing it must not change what a later parse returns
+        if i % 3 == 0:
+            back[0][0]["name"] = "edited"
+            back[0][0]["version"] = ("=", "0")
+            if back[0][0]["arch"]:
+                back[0][0]["arch"].append(PR.ArchRestriction(True, "edited"))
+            try:
+                again = PR.parse_relations(s)
+            except Exception as e:
+                t.failed("second parse raised %r" % (e,), string=s)
+                break
+            if again != rels:
+                t.failed("a second parse of the same string is affected by edits to the first result", string=s,
+                         parsed=repr(again), original=repr(rels))
+                break
     t.done()
     ctx.level = "other"
     ctx.explanation = "BOUNDED ONLY in this revision (see module docstring)."
